@@ -36,125 +36,127 @@ def run(ctx):
     from .. import rules_extract as X
 
     res.rules.update({"X-NODES": "the per-order sub-hypergraph keeps ALL nodes when keep_isolated_nodes is set (rows of the per-order matrices)", "X-WEIGHT": "weights reach the per-order sub-hypergraph", "X-FLAG": "same weightedness", "X-EMETA": "(shared with C05)", "X-NMETA": "(shared with C05)", "X-DELEG": "(shared with C05)"})
-    X.check_extraction(ctx, res, "Hypergraph.get_edges")
+    with res.guard("X.check_extractionctx, res, Hypergraph.get_edges"):
+        X.check_extraction(ctx, res, "Hypergraph.get_edges")
     # ---- K-ENC
-    v = ctx.view("linalg.binary_incidence_matrix")
-    f = v.fi.short
-    enc_defs = [n for n in walk_no_nested(v.fi.node) if isinstance(n, ast.Assign) and isinstance(n.value, ast.Call) and isinstance(n.value.func, ast.Attribute) and n.value.func.attr == "get_mapping"]
-    if len(enc_defs) != 1 or not isinstance(enc_defs[0].targets[0], ast.Name):
-        raise AnalysisError(f"{f}: encoder definition idiom not recognised")
-    enc = enc_defs[0].targets[0].id
-    hg = norm(enc_defs[0].value.func.value)
-    res.check(hg == "hypergraph", "K-ENC", f, norm(enc_defs[0]), "same-hypergraph", "the encoder is not the mapping of the hypergraph whose matrix is built", loc(v.fi, enc_defs[0]))
-    tr = [n for n in walk_no_nested(v.fi.node) if isinstance(n, ast.Call) and isinstance(n.func, ast.Attribute) and n.func.attr == "transform"]
-    res.check(bool(tr) and all(norm(t.func.value) == enc for t in tr), "K-ENC", f, norm(tr[0]) if tr else "encoder.transform(hye)", "rows", "hyperedges are not relabelled with the hypergraph's encoder before the incidence is built", loc(v.fi, tr[0] if tr else v.fi.node))
-    for t in tr:
-        src = v.enclosing(t, (ast.ListComp, ast.For))
-        it = src.generators[0].iter if isinstance(src, ast.ListComp) else (src.iter if src is not None else None)
-        ok = it is not None and isinstance(it, ast.Call) and isinstance(it.func, ast.Attribute) and it.func.attr == "get_edges" and norm(it.func.value) == hg and not it.args and not it.keywords
-        res.check(ok, "K-ENC", f, norm(it) if it is not None else norm(t), "columns", "the incidence columns are not the hyperedges of get_edges() of the same hypergraph, in that order", loc(v.fi, t))
-    inv = [n for n in walk_no_nested(v.fi.node) if isinstance(n, ast.Call) and isinstance(n.func, ast.Name) and n.func.id == "get_inverse_mapping"]
-    res.check(bool(inv) and all(i.args and norm(i.args[0]) == enc for i in inv), "K-ENC", f, norm(inv[0]) if inv else "get_inverse_mapping(encoder)", "mapping", "the returned node mapping is not the inverse of the encoder that produced the rows", loc(v.fi, inv[0] if inv else v.fi.node))
-    gim = ctx.view("labeling.get_inverse_mapping")
-    rk = unrole(ctx.interp.analyse_entry(gim.fi))
-    good = isinstance(rk, Dct) and rk.key == IDX and isinstance(rk.val, Atom) and rk.val.name == "NODE"
-    res.add("K-ENC", gim.fi.short, "return kind " + repr(rk), "index->label", "ok" if good else ("unknown" if isinstance(rk, _Top) else "violation"), "" if good else "get_inverse_mapping does not return a {row index: label} dict", loc(gim.fi, gim.fi.node))
-    hk = v.kind(next((n.value for n in walk_no_nested(v.fi.node) if isinstance(n, ast.Assign) and isinstance(n.targets[0], ast.Name) and n.targets[0].id == "hye_list"), None)) if any(isinstance(n, ast.Assign) and isinstance(n.targets[0], ast.Name) and n.targets[0].id == "hye_list" for n in walk_no_nested(v.fi.node)) else None
-    if hk is not None:
-        e = elem_of(elem_of(hk))
-        res.add("K-ENC", f, "hye_list " + repr(hk), "row-kind", "ok" if e == IDX else ("unknown" if isinstance(e, _Top) else "violation"), "" if e == IDX else f"the relabelled hyperedges hold {e!r} values, not row indices", loc(v.fi, v.fi.node))
-
+    with res.guard("K-ENC"):
+        v = ctx.view("linalg.binary_incidence_matrix")
+        f = v.fi.short
+        enc_defs = [n for n in walk_no_nested(v.fi.node) if isinstance(n, ast.Assign) and isinstance(n.value, ast.Call) and isinstance(n.value.func, ast.Attribute) and n.value.func.attr == "get_mapping"]
+        if len(enc_defs) != 1 or not isinstance(enc_defs[0].targets[0], ast.Name):
+            raise AnalysisError(f"{f}: encoder definition idiom not recognised")
+        enc = enc_defs[0].targets[0].id
+        hg = norm(enc_defs[0].value.func.value)
+        res.check(hg == "hypergraph", "K-ENC", f, norm(enc_defs[0]), "same-hypergraph", "the encoder is not the mapping of the hypergraph whose matrix is built", loc(v.fi, enc_defs[0]))
+        tr = [n for n in walk_no_nested(v.fi.node) if isinstance(n, ast.Call) and isinstance(n.func, ast.Attribute) and n.func.attr == "transform"]
+        res.check(bool(tr) and all(norm(t.func.value) == enc for t in tr), "K-ENC", f, norm(tr[0]) if tr else "encoder.transform(hye)", "rows", "hyperedges are not relabelled with the hypergraph's encoder before the incidence is built", loc(v.fi, tr[0] if tr else v.fi.node))
+        for t in tr:
+            src = v.enclosing(t, (ast.ListComp, ast.For))
+            it = src.generators[0].iter if isinstance(src, ast.ListComp) else (src.iter if src is not None else None)
+            ok = it is not None and isinstance(it, ast.Call) and isinstance(it.func, ast.Attribute) and it.func.attr == "get_edges" and norm(it.func.value) == hg and not it.args and not it.keywords
+            res.check(ok, "K-ENC", f, norm(it) if it is not None else norm(t), "columns", "the incidence columns are not the hyperedges of get_edges() of the same hypergraph, in that order", loc(v.fi, t))
+        inv = [n for n in walk_no_nested(v.fi.node) if isinstance(n, ast.Call) and isinstance(n.func, ast.Name) and n.func.id == "get_inverse_mapping"]
+        res.check(bool(inv) and all(i.args and norm(i.args[0]) == enc for i in inv), "K-ENC", f, norm(inv[0]) if inv else "get_inverse_mapping(encoder)", "mapping", "the returned node mapping is not the inverse of the encoder that produced the rows", loc(v.fi, inv[0] if inv else v.fi.node))
+        gim = ctx.view("labeling.get_inverse_mapping")
+        rk = unrole(ctx.interp.analyse_entry(gim.fi))
+        good = isinstance(rk, Dct) and rk.key == IDX and isinstance(rk.val, Atom) and rk.val.name == "NODE"
+        res.add("K-ENC", gim.fi.short, "return kind " + repr(rk), "index->label", "ok" if good else ("unknown" if isinstance(rk, _Top) else "violation"), "" if good else "get_inverse_mapping does not return a {row index: label} dict", loc(gim.fi, gim.fi.node))
+        hk = v.kind(next((n.value for n in walk_no_nested(v.fi.node) if isinstance(n, ast.Assign) and isinstance(n.targets[0], ast.Name) and n.targets[0].id == "hye_list"), None)) if any(isinstance(n, ast.Assign) and isinstance(n.targets[0], ast.Name) and n.targets[0].id == "hye_list" for n in walk_no_nested(v.fi.node)) else None
+        if hk is not None:
+            e = elem_of(elem_of(hk))
+            res.add("K-ENC", f, "hye_list " + repr(hk), "row-kind", "ok" if e == IDX else ("unknown" if isinstance(e, _Top) else "violation"), "" if e == IDX else f"the relabelled hyperedges hold {e!r} values, not row indices", loc(v.fi, v.fi.node))
     # ---- R-ROWORDER on sparse.diags(<list>) in degree_matrix
-    v = ctx.view("linalg.degree_matrix")
-    f = v.fi.short
-    diags = [n for n in walk_no_nested(v.fi.node) if isinstance(n, ast.Call) and isinstance(n.func, ast.Attribute) and n.func.attr == "diags" and n.args]
-    if not diags:
-        raise AnalysisError(f"{f}: sparse.diags call not found")
-    for d in diags:
-        arg = d.args[0]
-        src = arg
-        if isinstance(arg, ast.Name):
-            defs = [n for n in walk_no_nested(v.fi.node) if isinstance(n, ast.Assign) and isinstance(n.targets[0], ast.Name) and n.targets[0].id == arg.id]
-            src = defs[-1].value if defs else None
-        verdict, why = _row_ordered(v, src)
-        res.add("R-ROWORDER", f, norm(src) if src is not None else norm(arg), "diagonal", verdict, why, loc(v.fi, d))
-
+    with res.guard("R-ROWORDER on sparse.diags(<list>) in degree_matrix"):
+        v = ctx.view("linalg.degree_matrix")
+        f = v.fi.short
+        diags = [n for n in walk_no_nested(v.fi.node) if isinstance(n, ast.Call) and isinstance(n.func, ast.Attribute) and n.func.attr == "diags" and n.args]
+        if not diags:
+            raise AnalysisError(f"{f}: sparse.diags call not found")
+        for d in diags:
+            arg = d.args[0]
+            src = arg
+            if isinstance(arg, ast.Name):
+                defs = [n for n in walk_no_nested(v.fi.node) if isinstance(n, ast.Assign) and isinstance(n.targets[0], ast.Name) and n.targets[0].id == arg.id]
+                src = defs[-1].value if defs else None
+            verdict, why = _row_ordered(v, src)
+            res.add("R-ROWORDER", f, norm(src) if src is not None else norm(arg), "diagonal", verdict, why, loc(v.fi, d))
     # ---- W-ORDER
-    v = ctx.view("linalg.incidence_matrix_by_order")
-    f = v.fi.short
-    ge = [n for n in walk_no_nested(v.fi.node) if isinstance(n, ast.Call) and isinstance(n.func, ast.Attribute) and n.func.attr == "get_edges"]
-    gw = [n for n in walk_no_nested(v.fi.node) if isinstance(n, ast.Call) and isinstance(n.func, ast.Attribute) and n.func.attr == "get_weights"]
-    if not ge or not gw:
-        raise AnalysisError(f"{f}: get_edges / get_weights idiom not recognised")
+    with res.guard("W-ORDER"):
+        v = ctx.view("linalg.incidence_matrix_by_order")
+        f = v.fi.short
+        ge = [n for n in walk_no_nested(v.fi.node) if isinstance(n, ast.Call) and isinstance(n.func, ast.Attribute) and n.func.attr == "get_edges"]
+        gw = [n for n in walk_no_nested(v.fi.node) if isinstance(n, ast.Call) and isinstance(n.func, ast.Attribute) and n.func.attr == "get_weights"]
+        if not ge or not gw:
+            raise AnalysisError(f"{f}: get_edges / get_weights idiom not recognised")
 
-    def filt(c):
-        d = {k.arg: norm(k.value) for k in c.keywords if k.arg in ("order", "size", "up_to")}
-        for i, a in enumerate(c.args[:2]):
-            d[("order", "size")[i]] = norm(a)
-        return d
+        def filt(c):
+            d = {k.arg: norm(k.value) for k in c.keywords if k.arg in ("order", "size", "up_to")}
+            for i, a in enumerate(c.args[:2]):
+                d[("order", "size")[i]] = norm(a)
+            return d
 
-    res.check(all(filt(a) == filt(b) for a in ge for b in gw) and all("order" in filt(a) or "size" in filt(a) for a in ge), "W-ORDER", f, f"{norm(ge[0])} / {norm(gw[0])}", "same-filter", "the columns (get_edges) and the weights (get_weights) are selected with different order filters: weights multiply the wrong columns", loc(v.fi, gw[0]))
-    res.check(all(norm(a.func.value) == norm(b.func.value) for a in ge for b in gw), "W-ORDER", f, norm(gw[0]), "same-hypergraph", "columns and weights come from different hypergraphs", loc(v.fi, gw[0]))
-    v = ctx.view("linalg.incidence_matrix")
-    gw = [n for n in walk_no_nested(v.fi.node) if isinstance(n, ast.Call) and isinstance(n.func, ast.Attribute) and n.func.attr == "get_weights"]
-    res.check(bool(gw) and all(not g.args and not g.keywords and norm(g.func.value) == "hypergraph" for g in gw), "W-ORDER", v.fi.short, norm(gw[0]) if gw else "hypergraph.get_weights()", "unfiltered", "the weighted incidence multiplies the unfiltered columns by a filtered / foreign weight vector", loc(v.fi, gw[0] if gw else v.fi.node))
-
+        res.check(all(filt(a) == filt(b) for a in ge for b in gw) and all("order" in filt(a) or "size" in filt(a) for a in ge), "W-ORDER", f, f"{norm(ge[0])} / {norm(gw[0])}", "same-filter", "the columns (get_edges) and the weights (get_weights) are selected with different order filters: weights multiply the wrong columns", loc(v.fi, gw[0]))
+        res.check(all(norm(a.func.value) == norm(b.func.value) for a in ge for b in gw), "W-ORDER", f, norm(gw[0]), "same-hypergraph", "columns and weights come from different hypergraphs", loc(v.fi, gw[0]))
+        v = ctx.view("linalg.incidence_matrix")
+        gw = [n for n in walk_no_nested(v.fi.node) if isinstance(n, ast.Call) and isinstance(n.func, ast.Attribute) and n.func.attr == "get_weights"]
+        res.check(bool(gw) and all(not g.args and not g.keywords and norm(g.func.value) == "hypergraph" for g in gw), "W-ORDER", v.fi.short, norm(gw[0]) if gw else "hypergraph.get_weights()", "unfiltered", "the weighted incidence multiplies the unfiltered columns by a filtered / foreign weight vector", loc(v.fi, gw[0] if gw else v.fi.node))
     # ---- M-DIAG
-    for d in ADJ:
-        v = ctx.view(d)
-        f = v.fi.short
-        rets = [n for n in walk_no_nested(v.fi.node) if isinstance(n, ast.Return) and n.value is not None]
-        clear = set()
-        for n in walk_no_nested(v.fi.node):
-            if isinstance(n, ast.Call) and isinstance(n.func, ast.Attribute) and n.func.attr == "setdiag" and n.args and isinstance(n.args[0], ast.Constant) and n.args[0].value == 0:
-                clear.add((v.cfg_id(n), norm(n.func.value)))
-            if isinstance(n, ast.Assign) and isinstance(n.targets[0], ast.Name) and isinstance(n.value, ast.BinOp) and isinstance(n.value.op, ast.Sub) and norm(n.value.left) == n.targets[0].id:
-                # X = X - <diag of X>
-                r = n.value.right
-                rsrc = r
-                if isinstance(r, ast.Name):
-                    defs = [m for m in walk_no_nested(v.fi.node) if isinstance(m, ast.Assign) and isinstance(m.targets[0], ast.Name) and m.targets[0].id == r.id]
-                    rsrc = defs[-1].value if defs else r
-                names = {norm(x) for x in ast.walk(rsrc)} if rsrc is not None else set()
-                dsrc = set()
-                for x in ast.walk(rsrc):
-                    if isinstance(x, ast.Name):
-                        defs = [m for m in walk_no_nested(v.fi.node) if isinstance(m, ast.Assign) and isinstance(m.targets[0], ast.Name) and m.targets[0].id == x.id]
-                        for dd in defs:
-                            dsrc |= {norm(y) for y in ast.walk(dd.value)}
-                if any("diags" in s for s in names) and (f"{n.targets[0].id}.diagonal()" in names | dsrc):
-                    clear.add((v.cfg_id(n), n.targets[0].id))
-        if not rets:
-            raise AnalysisError(f"{f}: no return")
-        for r in rets:
-            var = r.value.elts[0] if isinstance(r.value, ast.Tuple) else r.value
-            name = norm(var)
-            ids = {i for i, nm in clear if nm == name}
-            rid = v.cfg_id(r)
-            ok = bool(ids) and not v.cfg.reaches_without(v.cfg.entry, rid, ids)
-            res.check(ok, "M-DIAG", f, norm(r), name, "an adjacency matrix is returned without its diagonal having been cleared (B B^T has the node degrees on the diagonal)", loc(v.fi, r))
-
+    with res.guard("M-DIAG"):
+        for d in ADJ:
+            v = ctx.view(d)
+            f = v.fi.short
+            rets = [n for n in walk_no_nested(v.fi.node) if isinstance(n, ast.Return) and n.value is not None]
+            clear = set()
+            for n in walk_no_nested(v.fi.node):
+                if isinstance(n, ast.Call) and isinstance(n.func, ast.Attribute) and n.func.attr == "setdiag" and n.args and isinstance(n.args[0], ast.Constant) and n.args[0].value == 0:
+                    clear.add((v.cfg_id(n), norm(n.func.value)))
+                if isinstance(n, ast.Assign) and isinstance(n.targets[0], ast.Name) and isinstance(n.value, ast.BinOp) and isinstance(n.value.op, ast.Sub) and norm(n.value.left) == n.targets[0].id:
+                    # X = X - <diag of X>
+                    r = n.value.right
+                    rsrc = r
+                    if isinstance(r, ast.Name):
+                        defs = [m for m in walk_no_nested(v.fi.node) if isinstance(m, ast.Assign) and isinstance(m.targets[0], ast.Name) and m.targets[0].id == r.id]
+                        rsrc = defs[-1].value if defs else r
+                    names = {norm(x) for x in ast.walk(rsrc)} if rsrc is not None else set()
+                    dsrc = set()
+                    for x in ast.walk(rsrc):
+                        if isinstance(x, ast.Name):
+                            defs = [m for m in walk_no_nested(v.fi.node) if isinstance(m, ast.Assign) and isinstance(m.targets[0], ast.Name) and m.targets[0].id == x.id]
+                            for dd in defs:
+                                dsrc |= {norm(y) for y in ast.walk(dd.value)}
+                    if any("diags" in s for s in names) and (f"{n.targets[0].id}.diagonal()" in names | dsrc):
+                        clear.add((v.cfg_id(n), n.targets[0].id))
+            if not rets:
+                raise AnalysisError(f"{f}: no return")
+            for r in rets:
+                var = r.value.elts[0] if isinstance(r.value, ast.Tuple) else r.value
+                name = norm(var)
+                ids = {i for i, nm in clear if nm == name}
+                rid = v.cfg_id(r)
+                ok = bool(ids) and not v.cfg.reaches_without(v.cfg.entry, rid, ids)
+                res.check(ok, "M-DIAG", f, norm(r), name, "an adjacency matrix is returned without its diagonal having been cleared (B B^T has the node degrees on the diagonal)", loc(v.fi, r))
     # ---- T-SNAP
-    for d in ("linalg.temporal_adjacency_matrix", "linalg.temporal_adjacency_matrix_by_order"):
-        v = ctx.view(d)
-        f = v.fi.short
-        loops = [n for n in walk_no_nested(v.fi.node) if isinstance(n, ast.For) and isinstance(n.target, ast.Name)]
-        found = False
-        for lp in loops:
-            t = lp.target.id
-            if unrole(elem_of(v.kind(lp.iter))) != TIME:
-                continue
-            found = True
-            snap = [n for n in ast.walk(lp) if isinstance(n, ast.Assign) and isinstance(n.value, ast.Subscript) and isinstance(n.value.slice, ast.Name)]
-            snap_ok = [n for n in snap if n.value.slice.id == t]
-            res.check(bool(snap_ok), "T-SNAP", f, norm(snap[0]) if snap else f"subhypergraphs[{t}]", "snapshot-of-t", "the snapshot is not looked up at the loop's time", loc(v.fi, lp))
-            snap_name = snap_ok[0].targets[0].id if snap_ok and isinstance(snap_ok[0].targets[0], ast.Name) else None
-            calls = [n for n in ast.walk(lp) if isinstance(n, ast.Call) and isinstance(n.func, ast.Name) and n.func.id in ("adjacency_matrix", "adjacency_matrix_by_order")]
-            res.check(bool(calls) and all(c.args and norm(c.args[0]) == snap_name for c in calls), "T-SNAP", f, norm(calls[0]) if calls else "adjacency_matrix(hypergraph_t)", "matrix-of-snapshot", "the matrix is not computed from the snapshot of the loop's time", loc(v.fi, lp))
-            stores = [n for n in ast.walk(lp) if isinstance(n, ast.Assign) and isinstance(n.targets[0], ast.Subscript) and isinstance(n.targets[0].value, ast.Name)]
-            res.check(bool(stores) and all(isinstance(s.targets[0].slice, ast.Name) and s.targets[0].slice.id == t for s in stores), "T-SNAP", f, norm(stores[0]) if stores else f"result[{t}] = adj_t", "keyed-by-t", "a snapshot matrix / mapping is stored under another key than its time", loc(v.fi, lp))
-        if not found:
-            raise AnalysisError(f"{f}: loop over snapshot times not recognised")
+    with res.guard("T-SNAP"):
+        for d in ("linalg.temporal_adjacency_matrix", "linalg.temporal_adjacency_matrix_by_order"):
+            v = ctx.view(d)
+            f = v.fi.short
+            loops = [n for n in walk_no_nested(v.fi.node) if isinstance(n, ast.For) and isinstance(n.target, ast.Name)]
+            found = False
+            for lp in loops:
+                t = lp.target.id
+                if unrole(elem_of(v.kind(lp.iter))) != TIME:
+                    continue
+                found = True
+                snap = [n for n in ast.walk(lp) if isinstance(n, ast.Assign) and isinstance(n.value, ast.Subscript) and isinstance(n.value.slice, ast.Name)]
+                snap_ok = [n for n in snap if n.value.slice.id == t]
+                res.check(bool(snap_ok), "T-SNAP", f, norm(snap[0]) if snap else f"subhypergraphs[{t}]", "snapshot-of-t", "the snapshot is not looked up at the loop's time", loc(v.fi, lp))
+                snap_name = snap_ok[0].targets[0].id if snap_ok and isinstance(snap_ok[0].targets[0], ast.Name) else None
+                calls = [n for n in ast.walk(lp) if isinstance(n, ast.Call) and isinstance(n.func, ast.Name) and n.func.id in ("adjacency_matrix", "adjacency_matrix_by_order")]
+                res.check(bool(calls) and all(c.args and norm(c.args[0]) == snap_name for c in calls), "T-SNAP", f, norm(calls[0]) if calls else "adjacency_matrix(hypergraph_t)", "matrix-of-snapshot", "the matrix is not computed from the snapshot of the loop's time", loc(v.fi, lp))
+                stores = [n for n in ast.walk(lp) if isinstance(n, ast.Assign) and isinstance(n.targets[0], ast.Subscript) and isinstance(n.targets[0].value, ast.Name)]
+                res.check(bool(stores) and all(isinstance(s.targets[0].slice, ast.Name) and s.targets[0].slice.id == t for s in stores), "T-SNAP", f, norm(stores[0]) if stores else f"result[{t}] = adj_t", "keyed-by-t", "a snapshot matrix / mapping is stored under another key than its time", loc(v.fi, lp))
+            if not found:
+                raise AnalysisError(f"{f}: loop over snapshot times not recognised")
     res.assumptions += [
         "adjacency_tensor indexes by label (one-symbol exemption: the property restricts the tensor to hypergraphs on nodes 0..N-1)",
         "LabelEncoder: transform maps labels to 0..N-1 in sorted label order, classes_ is that order, inverse_transform is its inverse (library summary)",
